@@ -10,6 +10,7 @@ A family / call is plain JSON data (so that replays and the corpus are self-cont
             "kwonly": [[name, kind, default], ...], "starstar": [name, kind]|None,
             "kind": "function"|"method"|"extension", "nokw": bool}
   kind   = ["T", tag, nullable] | ["L"] | ["E"] | ["H"] (hidden, by name engine/context) | ["U"] (undeclared)
+           | ["C"] (yaqltypes.Constant(False)) | ["M"] (yaqltypes.MappingRule())
   default= None | value ;   value = "null" | ["obj", tag] | ["int", n] | "marker"
   call   = {"recv": value|None, "args": [arg, ...], "kwargs": [[name, value], ...]}
   arg    = ["const", v] | ["expr", id, v] | ["raw", v] | ["skip"] | ["mapc", k, v] | ["mape", k, id, v]
@@ -177,6 +178,10 @@ def kind_type(kind):
         return yaqltypes.Lambda()
     if k == "E":
         return yaqltypes.YaqlExpression()
+    if k == "C":
+        return yaqltypes.Constant(False)
+    if k == "M":
+        return yaqltypes.MappingRule()
     return None
 
 
@@ -458,6 +463,10 @@ def kind_term(vt):
         if isinstance(vt, yaqltypes.Context):
             return "(KHidden HContext)"
         raise ValueError(vt)
+    if isinstance(vt, yaqltypes.MappingRule):
+        return "KMapRule"
+    if type(vt) is yaqltypes.Constant:
+        return "(KConstant %s)" % gal.boolean(vt.nullable)
     if isinstance(vt, yaqltypes.Lambda):
         return "KLambda"
     if isinstance(vt, yaqltypes.YaqlExpression):
@@ -525,7 +534,9 @@ def gen_value(rng):
 def gen_kind(rng, lazy_bias=0.0):
     r = rng.random()
     if r < lazy_bias:
-        return rng.choice([["L"], ["L"], ["E"]])
+        return rng.choice([["L"], ["L"], ["E"], ["M"]])
+    if r > 0.97:
+        return ["C"]
     if r < lazy_bias + 0.12:
         return ["U"]
     if r < lazy_bias + 0.2:
@@ -537,6 +548,8 @@ def gen_kind(rng, lazy_bias=0.0):
 
 def gen_default(rng, kind):
     r = rng.random()
+    if kind[0] in ("C", "M"):
+        return ["obj", rng.choice(range(1, 7))]        # never acceptable, never None (Constant.convert(None) is not modelled)
     if kind[0] == "T" and r < 0.5:
         # a default the declared type accepts, mostly
         cands = [c for c in range(1, 7) if issubclass(CLASSES[c], CLASSES[kind[1]])]
@@ -580,7 +593,7 @@ def gen_fun(rng, fid, shape):
         if not vis:
             pos.insert(0, ["a", gen_kind(rng), None])      # no default in front: always legal
         first = [p for p in pos if p[1] != ["H"]][0]
-        if first[1][0] in ("L", "E"):
+        if first[1][0] in ("L", "E", "M"):
             first[1] = ["T", rng.choice(RELATED), False]
     nokw = rng.random() < shape["pnokw"]
     return {"fid": fid, "pos": pos, "star": star, "kwonly": kwonly, "starstar": starstar, "kind": kind, "nokw": nokw}
@@ -714,8 +727,10 @@ def family_features(family, call, obs):
     feats = set()
     if any(p[1] == ["H"] for f in funs for p in f["pos"]):
         feats.add("hidden")
-    if any(p[1][0] in ("L", "E") for f in funs for p in f["pos"]):
+    if any(p[1][0] in ("L", "E", "M") for f in funs for p in f["pos"]):
         feats.add("lazy")
+    if any(p[1][0] == "C" for f in funs for p in f["pos"]):
+        feats.add("constant-kind")
     if any(f["star"] for f in funs):
         feats.add("star")
     if any(f["starstar"] for f in funs):
@@ -757,7 +772,7 @@ class SParam:
                 raise ValueError(default)
         self.kind = kind
         self.hidden = kind[0] == "H"
-        self.lazy = kind[0] in ("L", "E")
+        self.lazy = kind[0] in ("L", "E", "M")
 
     def accepts(self, a):
         """a: JSON arg (possibly not evaluated yet)"""
@@ -766,6 +781,10 @@ class SParam:
             return True
         if k == "E":
             return a[0] in ("const", "expr", "mapc", "mape")
+        if k == "C":
+            return a[0] == "const"
+        if k == "M":
+            return a[0] in ("mapc", "mape")
         if a[0] in ("expr", "mapc", "mape"):
             return True                              # decided after evaluation
         v = "marker" if a[0] == "skip" else a[1]
@@ -783,6 +802,8 @@ class SParam:
             return ["val", "null"] if a == ["raw", "null"] else ["callable", a]
         if k == "E":
             return ["exprobj", a]
+        if k == "M":
+            return ["val", ["int", MAPRULE_CODE]]
         if a[0] in ("const", "raw"):
             return ["val", a[1]]
         if a[0] == "skip":
